@@ -141,12 +141,31 @@ Proof.
   cbn [map filter]. rewrite etok_of_named. destruct (negb (e_is_lit (fst (etok_of t)))); cbn [List.length]; now rewrite IH.
 Qed.
 
+Definition groups_of_toks (l : list etok) : nat :=
+  fold_right (fun e a => match e with ERx re => re_groups re + a | _ => a end) 0 l.
+
+Lemma pe_groups_toks template : pe_groups (path_expression template) = groups_of_toks (pe_toks (path_expression template)).
+Proof.
+  unfold path_expression, groups_of_toks. cbn [pe_groups pe_toks].
+  induction (map etok_of (filter (fun t => negb (str_eqb t [])) (tokenize template))) as [|e l IH]; [reflexivity|].
+  cbn [map fold_right]. now rewrite IH.
+Qed.
+
+Lemma plain_no_groups etoks tpl :
+  Forall2 tok_rel etoks tpl -> forallb plain_ne tpl = true -> groups_of_toks etoks = 0.
+Proof.
+  induction 1 as [|e v es vs Hev Hrest IH]; [reflexivity|]. cbn [forallb]. intros H. apply andb_true_iff in H as [Hv Hvs].
+  unfold groups_of_toks in *. cbn [fold_right]. rewrite (IH Hvs). unfold tok_rel in Hev. unfold plain_ne in Hv.
+  destruct (v_tk v); destruct (v_verb v); try discriminate Hv; cbn in Hev; injection Hev as <-; reflexivity.
+Qed.
+
 Lemma jsr_select_routes_keys w fin c :
   In c (jsr_select_routes O w fin) ->
   rc_path c = route_path w (rc_route c) /\
   rc_literal c = pe_literal (path_expression (r_rel (rc_route c))) /\
   rc_nondef c = pe_vars (path_expression (r_rel (rc_route c))) /\
-  exists caps f2, jsr_match O (pe_toks (path_expression (r_rel (rc_route c)))) fin = Some (caps, f2) /\ rc_matches c = S (List.length caps).
+  exists caps f2, jsr_match O (pe_toks (path_expression (r_rel (rc_route c)))) fin = Some (caps, f2)
+                  /\ rc_matches c = S (List.length caps) + pe_groups (path_expression (r_rel (rc_route c))).
 Proof.
   unfold jsr_select_routes. rewrite (sort_desc_In rc_lt), in_flat_map. intros (r & Hr & Hc). cbn zeta in Hc.
   destruct (jsr_match O (pe_toks (path_expression (r_rel r))) fin) as [[caps f2]|] eqn:Em; [|contradiction].
@@ -241,7 +260,7 @@ Proof.
     unfold jsr_admits in Hadc'. apply andb_true_iff in Hadc' as [H _]. apply andb_true_iff in H as [H _]. apply andb_true_iff in H as [H _].
     apply andb_true_iff in H as [_ Hpath]. rewrite Hpath in Hiff.
     destruct (jsr_match O (pe_toks (path_expression (r_rel rc))) fin) as [[c2 f2]|] eqn:Em; [|discriminate Hiff].
-    exists {| rc_route := rc; rc_matches := S (List.length c2); rc_literal := pe_literal (path_expression (r_rel rc));
+    exists {| rc_route := rc; rc_matches := S (List.length c2) + pe_groups (path_expression (r_rel rc)); rc_literal := pe_literal (path_expression (r_rel rc));
               rc_nondef := pe_vars (path_expression (r_rel rc)); rc_path := route_path w rc |}.
     split; [|reflexivity]. unfold jsr_select_routes. rewrite (sort_desc_In rc_lt), in_flat_map. exists rc. split; [exact Hinc|].
     cbn zeta. rewrite Em, Hiff. left. reflexivity. }
@@ -280,7 +299,8 @@ Proof.
     destruct (Mcc cj Hcj) as [H|H]; [rewrite Rcj; now apply Ppass|congruence|]. subst cj. congruence.
   - destruct (str_ltb (route_path w rj) (route_path w rc)) eqn:Lt2; [|now apply Hpath, str_ltb_total].
     assert (Hlt : rc_lt jj jc = true).
-    { unfold rc_lt. rewrite Pjj, Pjc, L1, L2, !pe_literal_sum, C1, C2, N1, N2, !pe_vars_nonlit.
+    { unfold rc_lt. rewrite Pjj, Pjc, L1, L2, !pe_literal_sum, C1, C2, N1, N2, !pe_vars_nonlit, !pe_groups_toks.
+      rewrite (plain_no_groups _ _ Relj Pjrel), (plain_no_groups _ _ Relc Pcrel), !Nat.add_0_r.
       replace (lit_chars (pe_toks (path_expression (r_rel rj)))) with (lit_chars (pe_toks (path_expression (r_rel rc)))) by lia.
       replace (List.length capsj) with (List.length capsc) by lia.
       replace (e_nonlit (pe_toks (path_expression (r_rel rj)))) with (e_nonlit (pe_toks (path_expression (r_rel rc)))) by lia.
